@@ -6,7 +6,7 @@ HERE="$(cd "$(dirname "$0")/.." && pwd)"
 for D in "$HERE"/seeded/$GLOB/; do
   [ -f "$D/meta.json" ] || continue
   # ONLY_MISSING=1: skip changes that already have a recorded catch
-  if [ -n "$ONLY_MISSING" ] && [ "$(jq -r '(.caught_by // []) | length' "$D/meta.json")" != "0" ]; then continue; fi
+  if [ -n "$ONLY_MISSING" ] && [ "$(jq -r 'if (.caught_by|type)=="array" then (.caught_by|length) else 0 end' "$D/meta.json")" != "0" ]; then continue; fi
   NAME=$(basename "$D"); PROP=$(jq -r .property "$D/meta.json"); EXTRA=$(jq -r '.also_run // [] | join(",")' "$D/meta.json")
   IDS="$PROP"; [ -n "$EXTRA" ] && IDS="$PROP,$EXTRA"
   OUT=$("$HERE/selftest/drill.sh" "$D/patch.diff" "$IDS" "$TIER" 2>&1)
